@@ -4,7 +4,7 @@
        <class>|nf=<non-finite fields>|trace=<step=class,...>|mis=<mismatching fields>
    Definitions only. *)
 From Coq Require Import String List Bool ZArith QArith Qabs Qminmax.
-From SpdVerif Require Import Base.NumOps Spec.ConfigSpec Gen.ConfigTables Gen.ConfigSites Model.ConfigTypes Model.Config Model.NumInst.
+From SpdVerif Require Import Base.CfgNumOps Spec.ConfigSpec Gen.ConfigTables Gen.ConfigSites Model.ConfigTypes Model.Config Model.NumInst.
 Import ListNotations.
 Local Open Scope string_scope.
 
